@@ -5,8 +5,8 @@ from lib.coqgen import N, b, lst
 NAME = "core"
 GO_PKG = "./core"
 COQ_IMPORTS = "From IBC Require Import Lib.Bytes Lib.CorrLib Core.Height Core.Chain Core.World Corr.CoreFam."
-CASE_TYPE = "Case"
-CHECK = "check"
+CASE_TYPE = "FCase"
+CHECK = "fcheck"
 
 PROPS = ["C01", "C02", "C03", "C04", "C05", "C06", "C08", "C09", "C10", "C11", "C14"]
 
@@ -493,8 +493,31 @@ def mon_hist(r, pid):
 def nontrivial(r):
     return sum(1 for s in r["in"]["steps"] if s["out"] == "ok" and s["op"]["k"] not in ("empty", "update")) >= 5
 
+def enc_fhist(r):
+    return "FHist (" + enc_hist(r) + ")"
+
+
+def enc_send2guard(r):
+    i = r["in"]
+    return "FSendGuard %s %s %s %s" % (N(i["bt"]), N(i["tt"]), N(i["lts"]), "true" if r["out"]["accepted"] else "false")
+
+
+def spec_send2guard(r):
+    """C08, v2 send-time guards, evaluated independently of the model: accepted iff the timeout (s) is after the block
+    time, at most 24 h after it, and after the latest consensus timestamp of the light client (s)"""
+    i = r["in"]
+    bt, tt, lts = int(i["bt"]), int(i["tt"]), int(i["lts"])
+    if r["out"]["panic"]:
+        return "v2 SendPacket panicked for block time %d, timeout %d s" % (bt, tt)
+    want = tt * 10 ** 9 > bt and tt * 10 ** 9 <= bt + 86400 * 10 ** 9 and tt > lts // 10 ** 9 and 0 < tt < 2 ** 63
+    if r["out"]["accepted"] != want:
+        return "v2 send with timeout %d s at block time %d ns, client's latest consensus timestamp %d ns: accepted=%s, the send-time guards give %s" % (
+            tt, bt, lts, r["out"]["accepted"], want)
+
+
 KINDS = {
-    "hist": dict(props=PROPS, enc=enc_hist, spec=mon_hist, spec_takes_pid=True, exact=False, nontrivial=nontrivial),
+    "hist": dict(props=PROPS, enc=enc_fhist, spec=mon_hist, spec_takes_pid=True, exact=False, nontrivial=nontrivial),
+    "send2guard": dict(props=["C08"], enc=enc_send2guard, spec=spec_send2guard, exact=True),
 }
 
 KNOWN = {}
